@@ -36,6 +36,10 @@ class _Base(TextQueryBackend):
     add_escaped: ClassVar[str] = "\\"
     convert_or_as_in: ClassVar[bool] = False
     convert_and_as_in: ClassVar[bool] = False
+    field_in_list_expression: ClassVar[str] = "{field} {op} ({list})"
+    or_in_operator: ClassVar[str] = "in"
+    and_in_operator: ClassVar[str] = "contains-all"
+    list_separator: ClassVar[str] = ", "
 
 
 class NativeBackend(_Base):
@@ -72,3 +76,23 @@ def run_native(case):
 
 def run_print6(case):
     return {"t": str(ipaddress.IPv6Address(int(case["a"])))}
+
+
+def _list_backend(or_as_in, allow_wild):
+    class B(_Base):
+        cidr_expression: ClassVar[None] = None
+        convert_or_as_in: ClassVar[bool] = or_as_in
+        in_expressions_allow_wildcards: ClassVar[bool] = allow_wild
+    return B()
+
+
+def run_render(case):
+    """the expansion rendered by a backend without native CIDR support, for the four combinations of
+    convert_or_as_in x in_expressions_allow_wildcards"""
+    out = []
+    for o in (False, True):
+        for a in (False, True):
+            r = _conv(_list_backend(o, a), case["s"])
+            r["o"], r["a"] = o, a
+            out.append(r)
+    return {"rs": out, "texts": [str(ipaddress.IPv6Address(int(x))) for x in case.get("samples", [])]}
